@@ -2886,6 +2886,35 @@ static Node *struct_ref(Node *node, Token *tok) {
 static Node *new_inc_dec(Node *node, Token *tok, int addend) {
   add_type(node);
 
+  // A bitfield wraps at its width and has no address. Convert `A.x++`
+  // to `tmp = &A, old = (*tmp).x, (*tmp).x = old + 1, old`.
+  if (node->kind == ND_MEMBER && node->member->is_bitfield) {
+    Obj *tmp = new_lvar("", pointer_to(node->lhs->ty));
+    Obj *old = new_lvar("", node->ty);
+
+    Node *expr1 = new_binary(ND_ASSIGN, new_var_node(tmp, tok),
+                             new_unary(ND_ADDR, node->lhs, tok), tok);
+
+    Node *mem1 = new_unary(ND_MEMBER,
+                           new_unary(ND_DEREF, new_var_node(tmp, tok), tok), tok);
+    mem1->member = node->member;
+    Node *mem2 = new_unary(ND_MEMBER,
+                           new_unary(ND_DEREF, new_var_node(tmp, tok), tok), tok);
+    mem2->member = node->member;
+
+    Node *expr2 = new_binary(ND_ASSIGN, new_var_node(old, tok), mem1, tok);
+    Node *expr3 = new_binary(ND_ASSIGN, mem2,
+                             new_add(new_var_node(old, tok),
+                                     new_num(addend, tok), tok),
+                             tok);
+    return new_binary(ND_COMMA, expr1,
+                      new_binary(ND_COMMA, expr2,
+                                 new_binary(ND_COMMA, expr3,
+                                            new_var_node(old, tok), tok),
+                                 tok),
+                      tok);
+  }
+
   // A _Bool saturates and floating-point addition rounds, so the old
   // value cannot be recovered from the new one. Convert `A++` to
   // `tmp = &A, old = *tmp, *tmp += 1, old`.
